@@ -4,14 +4,13 @@ use crate::support::*;
 use educe::Educe;
 use core::cmp::Ordering;
 #[derive(Educe)]
-#[repr(i64)]
-#[educe(PartialEq, PartialOrd, Eq)]
-pub enum T { B((), i64), V1 = 255 }
+#[educe(Eq, PartialOrd, PartialEq)]
+pub enum T { None, Some, Unit, B(#[educe(PartialOrd(rank(2)))] char, #[educe(PartialOrd(rank = "-2"))] char) }
 
-pub fn values() -> Vec<T> { vec![T::B((), -5), T::B((), 0), T::B((), 9), T::V1] }
-pub fn show(x: &T) -> String { #[allow(unused_variables)] match x { T::B(p0, p1) => format!("B({},{})", sv(p0), sv(p1)), T::V1 => format!("V1()") } }
-pub fn o_disc(x: &T) -> i128 { match x { T::B(_, _) => 0, T::V1 => 255 } }
-pub fn o_pcmp(a: &T, b: &T) -> Option<Ordering> { match (a, b) { (T::B(a0, a1), T::B(b0, b1)) => { match ::core::cmp::PartialOrd::partial_cmp(a0, b0) { Some(Ordering::Equal) => (), x => return x } match ::core::cmp::PartialOrd::partial_cmp(a1, b1) { Some(Ordering::Equal) => (), x => return x } Some(Ordering::Equal) }, (T::V1, T::V1) => {  Some(Ordering::Equal) }, _ => Some(o_disc(a).cmp(&o_disc(b))) } }
+pub fn values() -> Vec<T> { vec![T::None, T::Some, T::Unit, T::B('a', 'a'), T::B('a', 'z'), T::B('z', 'a'), T::B('z', 'z')] }
+pub fn show(x: &T) -> String { #[allow(unused_variables)] match x { T::None => format!("None()"), T::Some => format!("Some()"), T::Unit => format!("Unit()"), T::B(p0, p1) => format!("B({},{})", sv(p0), sv(p1)) } }
+pub fn o_disc(x: &T) -> i128 { match x { T::None => 0, T::Some => 1, T::Unit => 2, T::B(_, _) => 3 } }
+pub fn o_pcmp(a: &T, b: &T) -> Option<Ordering> { match (a, b) { (T::None, T::None) => {  Some(Ordering::Equal) }, (T::Some, T::Some) => {  Some(Ordering::Equal) }, (T::Unit, T::Unit) => {  Some(Ordering::Equal) }, (T::B(a0, a1), T::B(b0, b1)) => { match ::core::cmp::PartialOrd::partial_cmp(a1, b1) { Some(Ordering::Equal) => (), x => return x } match ::core::cmp::PartialOrd::partial_cmp(a0, b0) { Some(Ordering::Equal) => (), x => return x } Some(Ordering::Equal) }, _ => Some(o_disc(a).cmp(&o_disc(b))) } }
 #[repr(C)] pub struct Wrap { pub pre: u8, pub x: T, pub post: [u8; 9] }
 pub fn wrap(i: usize, n: u8) -> Wrap { Wrap { pre: n, x: values().swap_remove(i), post: [n; 9] } }
 pub fn run(out: &mut Out) { let vs = values(); for (i, a) in vs.iter().enumerate() { for (j, b) in vs.iter().enumerate() { let e = o_pcmp(a, b); let g = ::core::cmp::PartialOrd::partial_cmp(a, b); out.check(g == e, "ordlayout_7", "partial_cmp", || format!("partial_cmp({}, {}) = {:?} expected {:?}", show(a), show(b), g, e)); for n in [0u8, 1, 0x7f, 0x80, 0xff] { let wa = wrap(i, n); let wb = wrap(j, !n); let g = ::core::cmp::PartialOrd::partial_cmp(&wa.x, &wb.x); let e = o_pcmp(a, b); out.check(g == e, "ordlayout_7", "cmp_neighbours", || format!("cmp({}, {}) with neighbour bytes {} = {:?} expected {:?}", show(a), show(b), n, g, e)); } } } }
